@@ -412,6 +412,11 @@ class WorkerController:
                     self._down = True
                 return
             eventname, kwargs = eventcall
+            if self._down:
+                # Written off (see below): the session has already been told
+                # that this worker is down, it must not hear from it again.
+                self.log(f"ignoring {eventname} from a worker which is down")
+                return
             if eventname in ("collectionstart",):
                 self.log(f"ignoring {eventname}({kwargs})")
             elif eventname == "workerready":
@@ -476,6 +481,9 @@ class WorkerController:
             self.config.notify_exception(excinfo)
             self.shutdown()
             self.notify_inproc("errordown", node=self, error=excinfo)
+            # The worker is written off: neither what it still sends nor the
+            # end of its channel may reach the session as a second event.
+            self._down = True
 
 
 def _generic_warning_message(data: dict[str, Any]) -> warnings.WarningMessage:
